@@ -368,6 +368,9 @@ class Lowerer:
 
     def parse_type(self, s):
         s = s.strip()
+        mra = re.match(r'^(.*?)\s*\(&\)\s*((\[\d+\])+)$', s)
+        if mra:
+            return Ty('ref', to=self.parse_type(mra.group(1).strip() + mra.group(2)))      # reference to array
         if s.endswith('&&'):
             return Ty('ref', to=self.parse_type(s[:-2]))
         if s.endswith('&'):
@@ -506,6 +509,14 @@ class Lowerer:
         raise Unsupported('type %r' % t)
 
     def cdecl(self, t, name):
+        if t.kind == 'ptr' and t.to.kind == 'arr':
+            # pointer to array (a by-reference capture / parameter of array type):  T (*name)[N]
+            a = t.to
+            dims = ''
+            while a.kind == 'arr':
+                dims += '[%s]' % a.n
+                a = a.to
+            return '%s (*%s)%s' % (self.cty(a), name, dims)
         if t.kind == 'arr':
             dims = ''
             while t.kind == 'arr':
